@@ -1,6 +1,6 @@
 #!/usr/bin/env python3
 """Prints a markdown table of what the last run of every check covered (from /verif/evidence/*.json); used to
-refresh the appendix of DESIGN.md: python3 tools/numbers.py > /tmp/numbers.md"""
+refresh the appendix of DESIGN.md: python3 tools/coverage_table.py > /tmp/numbers.md"""
 import glob
 import json
 import os
